@@ -6,6 +6,7 @@
 -/
 import SeedProofs.Lemmas.Scan
 import SeedProofs.Lemmas.C18NodePosSrc
+import SeedProofs.Lemmas.C18EvalPosProg
 namespace Seed.C18
 
 -- audit: Seed.node_pos Seed.node_pos_expr Seed.node_pos_src Seed.locOK_is_posOf Seed.posAll Seed.parseExpr_node_pos Seed.parseStmts_node_pos
@@ -227,5 +228,114 @@ theorem pos_shift_rel (p t : List Char) (j : Nat) (ht : t ≠ []) :
   · split
     · rfl
     · next hm => rw [colOf_of_not_mem _ hm]
+
+/-! ### run-time diagnostics: every position is a position stored in the program, hence a token start of the source
+
+  Lemmas/C18EvalPosDefs.lean (marks of a tree, `Err.LocsIn`, the heap invariant `PosInv`), C18EvalPosPrim.lean (operators,
+  builtins, `bindNextName`, `validateArgs`), C18EvalPos.lean (the 23-function fuel induction `evalPosAll`),
+  C18EvalPosProg.lean (`evalProg`, closure under run-time slot parsing, the link to `node_pos`).
+
+  `e.AllPos S` (`Err.allPos_iff`): the `line:col` of every `atLoc` node and the call position of every call frame of `e`
+  satisfy `S`; a position inside the leaf's payload (AlreadyInScope / DupParamName cite the earlier declaration)
+  satisfies `S` or is `(0,0)`, where the built-in `print` is declared (see the examples at the end).
+
+  Interpolation slots are parsed when the literal is evaluated (`interpolate`), with positions relative to the slot
+  text, and the position attached to the slot is computed from the literal's column and the slot's offset: neither is a
+  position stored in the tree, and in general neither is a source position (`diag_pos_is_source_pos_fails_with_slots`;
+  known findings K2/K4).  So the statements come in two forms: for programs without slots (`NoSlots`, decidable), and
+  for all programs with the slot-derived positions as a separate, explicitly described set. -/
+
+-- audit: Seed.evalPosAll Seed.evalProg_pos Seed.evalProg_inv Seed.progMark_slotClosed Seed.progMark_noSlots Seed.parseProg_marks Seed.parseExprTop_marks Seed.locOK_tokStart Seed.Err.allPos_iff Seed.validateArgs_pos Seed.bindNextName_pos Seed.callBuiltin_pos Seed.applyBinOp_pos Seed.TokStart.line
+
+/-- **`eval_uses_node_pos`.**  every position in an error returned by `evalProg n stmts` — at any depth of call frames,
+    so also those of code that was stored in a function cell of the heap and called later — is a mark of the program
+    (`ProgMark`): a position stored in the tree `stmts`, or the position `interpolate` attaches to a slot of a reachable
+    interpolated literal (`slotPos`), or a position stored in the expression such a slot parses to at run time -/
+theorem eval_uses_node_pos {n : Nat} {stmts : List Stmt} {e : Err} {σ : State} (h : evalProg n stmts = .err e σ) :
+    e.AllPos (fun l => ProgMark stmts (.loc l)) :=
+  Seed.eval_uses_node_pos h
+
+/-- full statement: `evalProg n stmts = .err e σ → e.AllPos (· ∈ Stmt.locsL stmts)`.  It is false when a slot is
+    evaluated (`eval_uses_node_pos_fails_with_slots`); proved for programs without interpolation slots: every position in
+    the error is one of the positions stored in the tree (`Stmt.locsL`: the `loc` of every expression node, `opLoc`,
+    `nameLoc`, the positions of `break` / `continue` / `return`, at any depth, function bodies included) -/
+theorem eval_uses_node_pos_partial {n : Nat} {stmts : List Stmt} {e : Err} {σ : State} (hns : NoSlots stmts)
+    (h : evalProg n stmts = .err e σ) : e.AllPos (· ∈ Stmt.locsL stmts) :=
+  Seed.eval_uses_node_pos_partial hns h
+
+/-- full statement: `parseProg src = .ok stmts → evalProg n stmts = .err e σ → e.AllPos (TokStart src)`.  It is false
+    (`diag_pos_is_source_pos_fails_with_slots`); proved here for programs without interpolation slots:
+    every position in the error is `posOf src i` for an offset `i < src.length` that is the first character of a token
+    (`TokStart`: the token is in the token stream, `nextToken` returns it from an offset `k' ≤ i`, and the whitespace and
+    comments from `k'` end at `i`) -/
+theorem diag_pos_is_source_pos_partial {src : List Char} {stmts : List Stmt} {n : Nat} {e : Err} {σ : State}
+    (hp : parseProg src = .ok stmts) (hns : NoSlots stmts) (h : evalProg n stmts = .err e σ) : e.AllPos (TokStart src) :=
+  Seed.diag_pos_is_source_pos_partial hp hns h
+
+/-- for every program: a position in the error is the first character of a token of the source, or slot-derived: the
+    `slotPos` of a slot of a reachable interpolated literal, or a token start *of that slot's text* -/
+theorem diag_pos_source_or_slot {src : List Char} {stmts : List Stmt} {n : Nat} {e : Err} {σ : State}
+    (hp : parseProg src = .ok stmts) (h : evalProg n stmts = .err e σ) :
+    e.AllPos (fun l => TokStart src l ∨ SlotDerived stmts l) :=
+  Seed.diag_pos_source_or_slot hp h
+
+/-- the position the diagnostic line starts with is one of them -/
+theorem diag_head_pos_is_source_pos {src : List Char} {stmts : List Stmt} {n : Nat} {e : Err} {σ : State} {l : Loc}
+    (hp : parseProg src = .ok stmts) (hns : NoSlots stmts) (h : evalProg n stmts = .err e σ) (hl : e.headPos = some l) :
+    ∃ i, i < src.length ∧ l = posOf src i :=
+  ((Seed.diag_pos_is_source_pos_partial hp hns h).headPos hl).is_posOf
+
+/-- a failure inside a called function: the body of `f` is evaluated out of a function cell of the heap -/
+def exCall : List Char := c!"fn f(a) {\n    return a + x;\n}\nf(1);\n"
+
+/-- the hypotheses are satisfiable: the call frame's position `4:1` and the position `2:16` of the undefined `x` -/
+example : ∃ stmts e σ, parseProg exCall = .ok stmts ∧ NoSlots stmts ∧ evalProg 40 stmts = .err e σ ∧
+    e.positions = [(4, 1), (2, 16)] := by
+  obtain ⟨e, σ, he, hp⟩ := errOf_map (n := 40) (stmts := progOf exCall) (f := Err.positions) (x := [(4, 1), (2, 16)])
+    (by decide +kernel)
+  exact ⟨_, e, σ, parseProg_progOf (by decide +kernel), by decide +kernel, he, hp⟩
+
+/-- … and what the theorem gives for them -/
+example : TokStart exCall (4, 1) ∧ TokStart exCall (2, 16) := by
+  obtain ⟨e, σ, he, hp⟩ := errOf_map (n := 40) (stmts := progOf exCall) (f := Err.positions) (x := [(4, 1), (2, 16)])
+    (by decide +kernel)
+  have := (Err.allPos_iff.mp (diag_pos_is_source_pos_partial (parseProg_progOf (by decide +kernel)) (by decide +kernel) he)).1
+  rw [hp] at this
+  exact ⟨this _ (by simp), this _ (by simp)⟩
+
+/-- a slot with leading blanks: the diagnostic is `2:15: 1:3: 'x' is not defined` — column 15 of line 2 is the blank
+    after `${` -/
+def exSlot : List Char := c!"y := 1;\n   print($\"a${  x}\");\n"
+
+/-- the statement without `NoSlots` is false: `2:15` is not the start of any token of `exSlot` -/
+theorem diag_pos_is_source_pos_fails_with_slots :
+    ∃ src stmts n e σ, parseProg src = .ok stmts ∧ evalProg n stmts = .err e σ ∧ ¬ e.AllPos (TokStart src) := by
+  obtain ⟨e, σ, he, hp⟩ := errOf_map (n := 40) (stmts := progOf exSlot) (f := Err.positions) (x := [(2, 15), (1, 3)])
+    (by decide +kernel)
+  refine ⟨exSlot, _, 40, e, σ, parseProg_progOf (by decide +kernel), he, fun hall => ?_⟩
+  have := (Err.allPos_iff.mp hall).1 (2, 15) (by rw [hp]; simp)
+  exact not_locOK_of_all (by decide +kernel) this.locOK
+
+/-- … and `2:15` is not a position stored in the tree either -/
+theorem eval_uses_node_pos_fails_with_slots :
+    ∃ stmts n e σ, evalProg n stmts = .err e σ ∧ ¬ e.AllPos (· ∈ Stmt.locsL stmts) := by
+  obtain ⟨e, σ, he, hp⟩ := errOf_map (n := 40) (stmts := progOf exSlot) (f := Err.positions) (x := [(2, 15), (1, 3)])
+    (by decide +kernel)
+  refine ⟨_, 40, e, σ, he, fun hall => ?_⟩
+  have := (Err.allPos_iff.mp hall).1 (2, 15) (by rw [hp]; simp)
+  revert this
+  decide +kernel
+
+/-- the `(0,0)` exception is real: redeclaring `print` cites the position the built-in binding was declared at -/
+example : ∃ e σ, evalProg 40 (progOf c!"print := 1;") = .err e σ ∧ e.positions = [(1, 1)] ∧ e.payloadLocs = [(0, 0)] := by
+  obtain ⟨e, σ, he, hp⟩ := errOf_map (n := 40) (stmts := progOf c!"print := 1;")
+    (f := fun e => (e.positions, e.payloadLocs)) (x := ([(1, 1)], [(0, 0)])) (by decide +kernel)
+  exact ⟨e, σ, he, congrArg Prod.fst hp, congrArg Prod.snd hp⟩
+
+/-- a payload position that is a tree position: the earlier parameter cited by DupParamName -/
+example : ∃ e σ, evalProg 40 (progOf c!"fn g(a, a) { }\n") = .err e σ ∧ e.positions = [(1, 9)] ∧ e.payloadLocs = [(1, 6)] := by
+  obtain ⟨e, σ, he, hp⟩ := errOf_map (n := 40) (stmts := progOf c!"fn g(a, a) { }\n")
+    (f := fun e => (e.positions, e.payloadLocs)) (x := ([(1, 9)], [(1, 6)])) (by decide +kernel)
+  exact ⟨e, σ, he, congrArg Prod.fst hp, congrArg Prod.snd hp⟩
 
 end Seed.C18
